@@ -9,7 +9,7 @@ for f in sorted(glob.glob('/verif/seeded/*/meta.json')):
     rows.append((m['name'],m['property'],'yes' if m.get('detected') else 'NO',m.get('needs',''),caught,m.get('note','')))
 out=["# Seeded changes","",
 "Each directory holds `patch.diff` (the change to safing/portbase), the demonstration test written by the author of the change (`*_test.go.txt`; fails with the change, passes without), `check_output.txt` and `meta.json`.",
-"Changes were written by independent sub-agents that saw only the property text and a scratch worktree; each was re-verified here (existing tests pass with the change, demo fails with it and passes without it) and then applied to /repo, checked with the property's quick command and reverted (`tools/eval_seed.sh`).","",
+"Changes were written by independent sub-agents that saw only the property text and a scratch worktree; each was re-verified here (existing tests pass with the change, demo fails with it and passes without it) and then checked with the property's quick command against a fresh scratch worktree of /repo's HEAD with the patch applied (`tools/eval_seed.sh`, `tools/remeta_seed.sh`; the worktree is removed afterwards).","",
 "| change | property | caught by the check | what it needs to manifest | harness/obligation that caught it | note |","|---|---|---|---|---|---|"]
 for r in rows:
     out.append("| %s | %s | %s | %s | %s | %s |"%r)
